@@ -64,3 +64,16 @@ Print Assumptions C13_algo_args.
 Theorem C13_no_algo_configured : forall cfg st level params now s,
   algo cfg <= 0 -> unlock_security_access cfg st level params now s = (CErr ENotImpl None, st, now, s, []).
 Proof. exact unlock_no_algo. Qed.
+
+(* ---- the code is the rule (regenerated each run): the real unlock_security_access (with request_seed and send_key underneath), executed with
+   send_request replaced by two scripted positive replies - any level, any seed-request data, seed replies of 1..3 data bytes and key replies
+   of any length, every byte symbolic - and the algorithm "key = reversed seed" (tools/symtrans.py, Gen/Fn_Unlock.v): [error code or 0;
+   number of requests sent] ++ the requests are those of `unlock_spec`, which sends the seed request, nothing more when the seed exchange
+   fails or the seed is all zero, and otherwise exactly one key request carrying the computed key ---- *)
+From UDS Require Import Gen.Fn_Unlock Proofs.Tie_unlock_common Proofs.Tie_unlock.
+
+Theorem C13_code_unlock : forall level params d1 d2 r1 r2,
+  d1 <> [] -> (List.length d1 < 4)%nat -> d2 <> [] -> p_data r1 = d1 -> p_data r2 = d2 ->
+  fn_unlock level params d1 d2 = ret (unlock_spec level params r1 r2).
+Proof. exact tie_unlock. Qed.
+Print Assumptions C13_code_unlock.
